@@ -437,7 +437,7 @@ theorem inv_fullBranch (p : Params) (hp5 : p.perKeyObject = true) (hp16 : p.stor
   have hf : ∀ o : Nat, o < w.nObj → (w.heap o).id ≠ src w.nId := fun o ho => fresh_of_inv h hinj ho (Nat.le_refl _)
   have hid : ∃ m, m < w.nId + 1 ∧ src w.nId = src m := ⟨w.nId, by omega, rfl⟩
   have h5 := inv_createSessionState p h4 c.server
-    { id := src w.nId, vers := p.version, suite := su, ms := w.nSec, peer := none } hid hf rfl
+    { id := src w.nId, vers := p.version, suite := su, ms := w.nSec, peer := none, cpeer := sentCert p c } hid hf rfl
   split
   · exact inv_cleanup p h4 _ _
   · split
@@ -447,26 +447,26 @@ theorem inv_fullBranch (p : Params) (hp5 : p.perKeyObject = true) (hp16 : p.stor
       refine inv_createNewSession p hp5 h5 c.dst _ hid ?_ ?_
       · intro o ho hido
         have hobj : (createSessionState p { w with nId := w.nId + 1, nSec := w.nSec + 1 } c.server
-          { id := src w.nId, vers := p.version, suite := su, ms := w.nSec, peer := none }).nObj = w.nObj + 1 := rfl
+          { id := src w.nId, vers := p.version, suite := su, ms := w.nSec, peer := none, cpeer := sentCert p c }).nObj = w.nObj + 1 := rfl
         rw [hobj] at ho
         by_cases a : o < w.nObj
         · have : (createSessionState p { w with nId := w.nId + 1, nSec := w.nSec + 1 } c.server
-            { id := src w.nId, vers := p.version, suite := su, ms := w.nSec, peer := none }).heap o = w.heap o :=
+            { id := src w.nId, vers := p.version, suite := su, ms := w.nSec, peer := none, cpeer := sentCert p c }).heap o = w.heap o :=
             heap_alloc_old { w with nId := w.nId + 1, nSec := w.nSec + 1 } _ a
           rw [this] at hido
           exact absurd hido (hf o a)
         · have e : o = w.nObj := by omega
           subst e
           have : (createSessionState p { w with nId := w.nId + 1, nSec := w.nSec + 1 } c.server
-            { id := src w.nId, vers := p.version, suite := su, ms := w.nSec, peer := none }).heap w.nObj =
-            { id := src w.nId, vers := p.version, suite := su, ms := w.nSec, peer := none } :=
+            { id := src w.nId, vers := p.version, suite := su, ms := w.nSec, peer := none, cpeer := sentCert p c }).heap w.nObj =
+            { id := src w.nId, vers := p.version, suite := su, ms := w.nSec, peer := none, cpeer := sentCert p c } :=
             heap_alloc_new { w with nId := w.nId + 1, nSec := w.nSec + 1 } _
           rw [this]; exact ⟨rfl, rfl, rfl⟩
       · intro j hj i e he o2 hv hido
         simp only [Option.some.injEq] at hj
         subst hj
         have hsrv : (createSessionState p { w with nId := w.nId + 1, nSec := w.nSec + 1 } c.server
-          { id := src w.nId, vers := p.version, suite := su, ms := w.nSec, peer := none }).servers =
+          { id := src w.nId, vers := p.version, suite := su, ms := w.nSec, peer := none, cpeer := sentCert p c }).servers =
           setServer w.servers c.server (LRU.put p.strictDelete (w.servers c.server) (idKey (src w.nId)) (some w.nObj)) := rfl
         rw [hsrv] at he
         rcases mem_setServer he with ⟨rfl, he⟩ | ⟨hne, he⟩
@@ -474,7 +474,7 @@ theorem inv_fullBranch (p : Params) (hp5 : p.perKeyObject = true) (hp16 : p.stor
         · -- an old entry of another server cannot carry the new identifier
           have ho2 := h.allocS i e he o2 hv
           have : (createSessionState p { w with nId := w.nId + 1, nSec := w.nSec + 1 } c.server
-            { id := src w.nId, vers := p.version, suite := su, ms := w.nSec, peer := none }).heap o2 = w.heap o2 :=
+            { id := src w.nId, vers := p.version, suite := su, ms := w.nSec, peer := none, cpeer := sentCert p c }).heap o2 = w.heap o2 :=
             heap_alloc_old { w with nId := w.nId + 1, nSec := w.nSec + 1 } _ ho2
           rw [this] at hido
           exact absurd hido (hf o2 ho2)
@@ -571,7 +571,8 @@ theorem checkForResumption_some {p : Params} {w : World} {c : Conn} {off : List 
     {o : ObjId} (h : (checkForResumption p w c off offered).2 = some o) :
     ∃ x, offered = some x ∧ (⟨idKey x, some o⟩ : Entry) ∈ (w.servers c.server).q ∧
       (⟨idKey x, some o⟩ : Entry) ∈ ((checkForResumption p w c off offered).1.servers c.server).q ∧
-      (w.heap o).vers = p.version ∧ (w.heap o).suite ∈ off ∧ (w.heap o).suite ∈ c.ssuites := by
+      (w.heap o).vers = p.version ∧ (w.heap o).suite ∈ off ∧ (w.heap o).suite ∈ c.ssuites ∧
+      certsOk p c.auth (w.heap o).cpeer = true ∧ ((w.heap o).cpeer.isSome = true → c.auth ≠ 0) := by
   cases offered with
   | none => simp [checkForResumption] at h
   | some x =>
@@ -586,8 +587,13 @@ theorem checkForResumption_some {p : Params} {w : World} {c : Conn} {off : List 
         simp only [Option.some.injEq] at h
         subst h
         simp only [Bool.and_eq_true, beq_iff_eq, List.contains_eq_mem, decide_eq_true_eq] at hc
-        refine ⟨x, rfl, hh.1, ?_, hc.1.1, hc.1.2, hc.2⟩
-        unfold setServer; simp only [if_true]; exact hh.2
+        obtain ⟨⟨⟨⟨g1, g2⟩, hv⟩, hs1⟩, hs2⟩ := hc
+        refine ⟨x, rfl, hh.1, ?_, hv, hs1, hs2, ?_, ?_⟩
+        · unfold setServer; simp only [if_true]; exact hh.2
+        · unfold certsOk; rw [Bool.and_comm]; exact g1
+        · intro hsome h0
+          rw [hsome, h0] at g2
+          simp at g2
       · simp at h
     · simp at h
 
@@ -611,13 +617,17 @@ theorem not_zeroed_of_safe {used : List ObjId} {s : State} (hs : Safe used s) {e
   simpa using this
 
 /-- **an undisturbed resumption attempt succeeds**: when the server finds the offered session
-usable, every check of the client passes and both Finished messages verify -/
+usable, every check of the client passes, the certificates recorded in the session pass
+processCertsFromClient and both Finished messages verify; the server's peer identity is the one
+recorded in its session -/
 theorem resume_ok (p : Params) {w : World} (h : Inv src w) (c : Conn) (hf : c.fault = .none)
     (lo so : ObjId) (rnd : Nat × Nat) (full : Option Nat)
     (hlo : (⟨dstKey c.dst, some lo⟩ : Entry) ∈ w.client.q)
     (hso : (⟨idKey (w.heap lo).id, some so⟩ : Entry) ∈ (w.servers c.server).q)
-    (hvers : (w.heap so).vers = p.version) :
+    (hvers : (w.heap so).vers = p.version)
+    (hcert : certsOk p c.auth (w.heap so).cpeer = true) :
     (resumeBranch p w c (some lo) so rnd full).2 =
+      withPeer p c.auth true (w.heap so).cpeer
       { cOk := true, sOk := true, cRes := true, sRes := true, offered := some (w.heap lo).id,
         returned := some (w.heap lo).id, suite := some (w.heap so).suite, peer := (w.heap lo).peer,
         ms := some (w.heap lo).ms, rnd := rnd, full := full } ∧
@@ -633,15 +643,19 @@ theorem resume_ok (p : Params) {w : World} (h : Inv src w) (c : Conn) (hf : c.fa
   have z2 := not_zeroed_of_safe hss hso rfl
   constructor
   · unfold resumeBranch
-    simp only [z2, Bool.false_eq_true, if_false, hv, hvers, hs, hm, z1, hf, offeredId]
+    have e : (Fault.none != Fault.clientFin) = true := by decide
+    simp only [z2, Bool.false_eq_true, if_false, hv, hvers, hs, hm, z1, hf, offeredId, hcert, e]
     simp
   · intro j hj
     exact h.issuer lo hlo' j hj c.server _ hso so rfl hid.symm
 
-/-- the full-handshake branch without a man in the middle -/
+/-- the full-handshake branch without a man in the middle, the client supplying a certificate
+whenever the policy requires one -/
 theorem full_ok (p : Params) (hinj : Function.Injective src) {w : World} (h : Inv src w) (c : Conn) (hf : c.fault = .none)
+    (hm : certMissing p c = false)
     (l : Option ObjId) (hl : ∀ lo, l = some lo → lo < w.nObj) (su : Nat) (rnd : Nat × Nat) (full : Option Nat) :
     (fullBranch p src w c l su rnd full).2 =
+      withPeer p c.auth (requestsCert p c.auth) (sentCert p c)
       { cOk := true, sOk := true, cRes := false, sRes := false, offered := offeredId w l, returned := some (src w.nId),
         suite := some su, peer := some c.server, ms := some w.nSec, rnd := rnd, full := full } := by
   unfold fullBranch
@@ -652,7 +666,16 @@ theorem full_ok (p : Params) (hinj : Function.Injective src) {w : World} (h : In
     | some lo =>
       have := fresh_of_inv h hinj (hl lo rfl) (Nat.le_refl _)
       simp [offeredId, this]
-  simp only [hc, Bool.false_eq_true, if_false, hf]
+  simp only [hc, Bool.false_eq_true, if_false, hf, hm]
+
+/-- a full handshake in which a required client certificate is missing fails on both sides, after
+the ServerHello, whatever else happens -/
+theorem full_missing (p : Params) (src : Nat → Nat) (w : World) (c : Conn) (hm : certMissing p c = true)
+    (l : Option ObjId) (su : Nat) (rnd : Nat × Nat) (full : Option Nat) :
+    (fullBranch p src w c l su rnd full).2 = failed (offeredId w l) (some (src w.nId)) rnd full := by
+  unfold fullBranch
+  simp only [hm, if_true]
+  split <;> rfl
 
 theorem afterLoad_frame (p : Params) (w : World) (c : Conn) :
     (afterLoad p w c).servers = w.servers ∧ (afterLoad p w c).heap = w.heap ∧
@@ -691,7 +714,7 @@ theorem connect_honest (p : Params) (hinj : Function.Injective src) {w : World} 
     rename_i so hr
     left
     unfold afterCheck at hr
-    obtain ⟨x, hx, _, hso, hvers, _, _⟩ := checkForResumption_some hr
+    obtain ⟨x, hx, _, hso, hvers, _, _, hcert, _⟩ := checkForResumption_some hr
     cases hl : loadedOf p w c with
     | none => rw [hl] at hx; simp [offeredId] at hx
     | some lo =>
@@ -706,9 +729,11 @@ theorem connect_honest (p : Params) (hinj : Function.Injective src) {w : World} 
         exact hso
       have hv3 : ((afterCheck p w c).1.heap so).vers = p.version := by
         rw [hfr.1, ← hal.2.1]; exact hvers
-      obtain ⟨hobs, hpj⟩ := resume_ok p h3 c hf lo so (w.nSec, w.nSec + 1) (pickSuite p c.ssuites (offer p c.csuites)) hlo3 hso3 hv3
+      have hc3 : certsOk p c.auth ((afterCheck p w c).1.heap so).cpeer = true := by
+        rw [hfr.1, ← hal.2.1]; exact hcert
+      obtain ⟨hobs, hpj⟩ := resume_ok p h3 c hf lo so (w.nSec, w.nSec + 1) (fullOutcome p c) hlo3 hso3 hv3 hc3
       rw [hobs]
-      simp only [Option.isSome_some, true_and]
+      simp only [withPeer, Option.isSome_some, true_and]
       refine ⟨hpj, ?_⟩
       intro hv
       have hp := hpeer hv
@@ -721,17 +746,25 @@ theorem connect_honest (p : Params) (hinj : Function.Injective src) {w : World} 
   · right
     split
     · rename_i hfull
-      simp [failed, hfull]
+      have : fullOutcome p c = none := by unfold fullOutcome; rw [hfull]; simp
+      simp [failed, this]
     · rename_i su hfull
-      have hl : ∀ lo, loadedOf p w c = some lo → lo < (afterCheck p w c).1.nObj := by
-        intro lo hlo
-        rw [hfr.2.2.1]
-        exact h.allocC _ (loadSession_some (p := p) (w := w) (d := c.dst) hlo).2.1 lo rfl
-      rw [full_ok p hinj h3 c hf _ hl]
-      simp only [hfull, Option.isSome_some, true_and, Option.some.injEq]
-      intro su' hsu
-      subst hsu
-      exact ⟨rfl, by rw [hfr.2.2.2.1], by rw [hfr.2.2.2.2]⟩
+      cases hm : certMissing p c with
+      | true =>
+        have : fullOutcome p c = none := by unfold fullOutcome; simp [hm]
+        rw [full_missing p src _ c hm]
+        simp [failed, this]
+      | false =>
+        have hfo : fullOutcome p c = some su := by unfold fullOutcome; simp [hm, hfull]
+        have hl : ∀ lo, loadedOf p w c = some lo → lo < (afterCheck p w c).1.nObj := by
+          intro lo hlo
+          rw [hfr.2.2.1]
+          exact h.allocC _ (loadSession_some (p := p) (w := w) (d := c.dst) hlo).2.1 lo rfl
+        rw [full_ok p hinj h3 c hf hm _ hl]
+        simp only [withPeer, hfo, Option.isSome_some, true_and, Option.some.injEq]
+        intro su' hsu
+        subst hsu
+        exact ⟨rfl, by rw [hfr.2.2.2.1], by rw [hfr.2.2.2.2]⟩
 
 /-! ### what the two branches report, in any world -/
 
@@ -742,21 +775,21 @@ theorem resume_obs (p : Params) (w : World) (c : Conn) (loaded : Option ObjId) (
       (resumeBranch p w c loaded so rnd full).2.returned = (resumeBranch p w c loaded so rnd full).2.offered ∧
       (resumeBranch p w c loaded so rnd full).2.suite = some (w.heap so).suite ∧
       (resumeBranch p w c loaded so rnd full).2.offered = offeredId w loaded) := by
-  unfold resumeBranch
+  unfold resumeBranch withPeer
   simp only []
   repeat' split
   all_goals simp_all [failed]
 
 theorem full_obs (p : Params) (src : Nat → Nat) (w : World) (c : Conn) (loaded : Option ObjId) (su : Nat) (rnd : Nat × Nat) (full : Option Nat) :
     (fullBranch p src w c loaded su rnd full).2.cRes = false ∧ (fullBranch p src w c loaded su rnd full).2.sRes = false := by
-  unfold fullBranch
+  unfold fullBranch withPeer
   simp only []
   repeat' split
   all_goals simp_all [failed]
 
 theorem connect_full (p : Params) (src : Nat → Nat) (w : World) (c : Conn) :
-    (connect p src w c).2.full = pickSuite p c.ssuites (offer p c.csuites) := by
-  unfold connect resumeBranch fullBranch
+    (connect p src w c).2.full = fullOutcome p c := by
+  unfold connect resumeBranch fullBranch withPeer
   simp only []
   repeat' split
   all_goals simp_all [failed]
@@ -776,14 +809,14 @@ theorem connect_both_report (p : Params) (src : Nat → Nat) (w : World) (c : Co
 theorem resume_peer (p : Params) (w : World) (c : Conn) (lo so : ObjId) (rnd : Nat × Nat) (full : Option Nat)
     (h : (resumeBranch p w c (some lo) so rnd full).2.cOk = true) :
     (resumeBranch p w c (some lo) so rnd full).2.peer = (w.heap lo).peer := by
-  unfold resumeBranch at h ⊢
+  unfold resumeBranch withPeer at h ⊢
   simp only [] at h ⊢
   repeat' split at h
   all_goals simp_all [failed]
 
 theorem resume_none (p : Params) (w : World) (c : Conn) (so : ObjId) (rnd : Nat × Nat) (full : Option Nat) :
     (resumeBranch p w c none so rnd full).2.cOk = false := by
-  unfold resumeBranch
+  unfold resumeBranch withPeer
   simp only []
   repeat' split
   all_goals simp_all [failed]
@@ -791,7 +824,7 @@ theorem resume_none (p : Params) (w : World) (c : Conn) (so : ObjId) (rnd : Nat 
 theorem full_peer (p : Params) (src : Nat → Nat) (w : World) (c : Conn) (l : Option ObjId) (su : Nat) (rnd : Nat × Nat)
     (full : Option Nat) (h : (fullBranch p src w c l su rnd full).2.cOk = true) :
     (fullBranch p src w c l su rnd full).2.peer = some c.server := by
-  unfold fullBranch at h ⊢
+  unfold fullBranch withPeer at h ⊢
   simp only [] at h ⊢
   split at h
   · simp [failed] at h
@@ -811,7 +844,7 @@ theorem connect_identity (p : Params) {w : World} (h : Inv src w) (c : Conn)
   | some so =>
     simp only [hr] at hc hj
     unfold afterCheck at hr
-    obtain ⟨x, hx, _, hso, hvers, _, _⟩ := checkForResumption_some hr
+    obtain ⟨x, hx, _, hso, hvers, _, _, _, _⟩ := checkForResumption_some hr
     cases hl : loadedOf p w c with
     | none => rw [hl] at hc; rw [resume_none] at hc; cases hc
     | some lo =>
